@@ -160,7 +160,7 @@ class Extractor:
     def parse_block(self, block):
         """parse the directive block of an EXTRACT."""
         d = dict(ret=None, safety=None, spec=None, loops={}, loopstart={}, loopend={}, inserts=[], substs=[], bodyonly=False,
-                 frm=None, to=None, optional=False, rename=None, pub=False, r4=False, replaces=[], pubfields=False, fnend=None, fnstart=None, attr=None, r4tail=False, frm_after=False, to_close=False, expand=[], maptail=False, closures=[], foreach=[], loophead=[])
+                 frm=None, to=None, optional=False, rename=None, pub=False, r4=False, replaces=[], pubfields=False, fnend=None, fnstart=None, attr=None, r4tail=False, frm_after=False, to_close=False, expand=[], maptail=False, closures=[], foreach=[], loophead=[], maporelse=False)
         i = 0
 
         def grab(endmarks):
@@ -219,6 +219,8 @@ class Extractor:
                 # //@ CLOSURE <recv>.<method> | .<method>#n | @<key tokens>  /  head text  /  //@ ENDCLOSURE
                 txt, _ = grab(["ENDCLOSURE"])
                 d["closures"].append((" ".join(w[1:]), txt.strip()))
+            elif k == "R10MAPORELSE":
+                d["maporelse"] = True
             elif k == "BODYONLY":
                 d["bodyonly"] = True
             elif k == "RENAME":
@@ -583,6 +585,52 @@ class Extractor:
                 bump("R6")
                 line = src.text.count("\n", 0, toks[k].start) + 1
                 self.lifts.append("%s:%d R10 `X.for_each(|%s| {..});` -> `for %s in X {..}`" % (rel, line, pat, pat))
+
+        # R10 (map/or_else statement): the statement  `X.map(|v| { A }).or_else(|| { B None });`  (value discarded, closures mutate
+        # captured locals) becomes  `match X { Some(v) => { A } None => { B } }`.  Side conditions checked: X is a plain identifier that
+        # starts a statement, the whole expression is the statement, A and B contain no return / break / continue / `?`, and the
+        # or_else closure ends with the tail expression `None`.
+        if d["maporelse"]:
+            hits = [k for k in range(a, b - 8) if toks[k].kind == "id" and toks[k + 1].text == "." and toks[k + 2].text == "map" and toks[k + 3].text == "("
+                    and toks[k + 4].text == "|" and toks[k + 5].kind == "id" and toks[k + 6].text == "|" and toks[k + 7].text == "{"
+                    and toks[k - 1].text in ("{", ";", "}")]
+            hits = [k for k in hits if toks[src.tbl[k + 3] + 1].text == "." and toks[src.tbl[k + 3] + 2].text == "or_else"]
+            if len(hits) != 1:
+                raise LostAnchor("%s: R10MAPORELSE: `X.map(|v| {..}).or_else(|| {..})` statement found %d times in %s %s" % (rel, len(hits), kind, name))
+            k = hits[0]
+            x, v = toks[k].text, toks[k + 5].text
+            ao, ac = k + 7, src.tbl[k + 7]
+            mc = src.tbl[k + 3]
+            if mc != ac + 1:
+                raise UnitError("R10MAPORELSE: unexpected tokens after the map closure")
+            oo = mc + 3
+            if toks[oo].text != "(":
+                raise UnitError("R10MAPORELSE: malformed or_else")
+            oc = src.tbl[oo]
+            q = oo + 1
+            if toks[q].text == "||":
+                q += 1
+            elif toks[q].text == "|" and toks[q + 1].text == "|":
+                q += 2
+            else:
+                raise UnitError("R10MAPORELSE: or_else closure must take no parameters")
+            if toks[q].text != "{" or src.tbl[q] != oc - 1:
+                raise UnitError("R10MAPORELSE: or_else closure body must be a block")
+            bo, bc = q, src.tbl[q]
+            if toks[bc - 1].text != "None" or toks[bc - 2].text not in (";", "}", "{"):
+                raise UnitError("R10MAPORELSE: the or_else closure must end with the tail expression `None`")
+            if toks[oc + 1].text != ";":
+                raise UnitError("R10MAPORELSE: the expression is not a statement of its own")
+            if any(toks[t].text in ("return", "break", "continue", "?") for t in list(range(ao, ac)) + list(range(bo, bc))):
+                raise UnitError("R10MAPORELSE: closure bodies with control flow")
+            s0, s1 = toks[k].start - base, toks[ao].end - base
+            pieces.append(Piece(s0, s1, "match %s { Some(%s) => {" % (x, v), "subst", old=orig[s0:s1], rule="R6"))
+            s0, s1 = toks[ac].start - base, toks[bo].end - base
+            pieces.append(Piece(s0, s1, "} None => {", "subst", old=orig[s0:s1], rule="R6"))
+            s0, s1 = toks[bc - 1].start - base, toks[oc + 1].end - base
+            pieces.append(Piece(s0, s1, "} }", "subst", old=orig[s0:s1], rule="R6"))
+            bump("R6")
+            self.lifts.append("%s: fn %s: statement `%s.map(|%s| {..}).or_else(|| {.. None});` rewritten to a match (R10)" % (rel, name, x, v))
 
         # R8c: annotate the closure passed as the only argument of the unique call `recv.method(|x| ..)` in this item with a
         # typed parameter list and an `ensures` clause (proof-only text); an expression closure additionally gets braces.
